@@ -105,7 +105,10 @@ func c06Check(c c06Case, st *stats.Run) error {
 		gotLens = append(gotLens, r.Len)
 	}
 	if fmt.Sprint(gotLens) != fmt.Sprint(wantLens) {
-		return pbt.Failf("C06/draw-count", "random draws of one Encrypt to %v were %v, want exactly one per secret: %v (file key; per stanza its ephemeral secret or salt [+ scrypt label]; payload nonce)", c.Recs, gotLens, wantLens)
+		// another drawing pattern (batched reads, extra draws): account for the
+		// secrets as windows of the drawn byte stream instead
+		st.Label("draw-pattern=other")
+		return c06StreamAccount(c, tape, file)
 	}
 	// (1) every secret is a draw, in its own tape region: the file equals what
 	// the specification prescribes for exactly these draws
@@ -203,6 +206,222 @@ func c06Check(c c06Case, st *stats.Run) error {
 	default:
 		if !payloadSame {
 			return pbt.Failf("C06/perturb-leak", "changing draw %q changed the payload", kinds[pk])
+		}
+	}
+	return nil
+}
+
+// a payload of more than 65536 chunks: the chunk counter carries out of its low 16 bits
+type c06Long struct {
+	Chunks int `json:"chunks"`
+}
+
+// keepWriter discards a file except for the payload chunks asked for.
+type keepWriter struct {
+	hdrLen int
+	off    int
+	want   map[int]bool
+	kept   map[int][]byte
+	head   []byte // header + nonce
+}
+
+func (w *keepWriter) Write(p []byte) (int, error) {
+	n := len(p)
+	for len(p) > 0 {
+		if w.off < w.hdrLen+16 {
+			k := min(len(p), w.hdrLen+16-w.off)
+			w.head = append(w.head, p[:k]...)
+			w.off += k
+			p = p[k:]
+			continue
+		}
+		po := w.off - w.hdrLen - 16
+		idx, within := po/refage.EncChunkSize, po%refage.EncChunkSize
+		k := min(len(p), refage.EncChunkSize-within)
+		if w.want[idx] {
+			w.kept[idx] = append(w.kept[idx], p[:k]...)
+		}
+		w.off += k
+		p = p[k:]
+	}
+	return n, nil
+}
+
+func c06CheckLong(c c06Long, st *stats.Run) error {
+	p := hx.ThePool()
+	rec := []age.Recipient{p.Recipient(hx.RecSpec{Kind: "x25519", Idx: 0})}
+	dry, err := encryptLib(rec, nil, nil, false)
+	if err != nil {
+		return pbt.Failf("C06/encrypt-failed", "%v", err)
+	}
+	kw := &keepWriter{hdrLen: len(dry) - 16 - 16, want: map[int]bool{}, kept: map[int][]byte{}}
+	probes := []int{0, 1, 2, 255, 256, 257, 65535, 65536, 65537, c.Chunks - 1}
+	for _, k := range probes {
+		if k < c.Chunks {
+			kw.want[k] = true
+		}
+	}
+	st.Case(true, stats.HashJSON(c), fmt.Sprintf("long-payload:chunks=%d", c.Chunks))
+	w, err := age.Encrypt(kw, rec...)
+	if err != nil {
+		return pbt.Failf("C06/encrypt-failed", "%v", err)
+	}
+	block := bytes.Repeat([]byte{0xA5}, 16*chunk)
+	left := (c.Chunks-1)*chunk + 10
+	for left > 0 {
+		k := min(left, len(block))
+		if _, err := w.Write(block[:k]); err != nil {
+			return pbt.Failf("C06/encrypt-failed", "%v", err)
+		}
+		left -= k
+	}
+	if err := w.Close(); err != nil {
+		return pbt.Failf("C06/encrypt-failed", "%v", err)
+	}
+	h, _, perr := refage.ParseHeader(kw.head)
+	if perr != nil || len(kw.head) != kw.hdrLen+16 {
+		return pbt.Failf("C06/unparseable", "header of the long file: %v", perr)
+	}
+	fk, uerr := p.RefKey(hx.RecSpec{Kind: "x25519", Idx: 0}).Unwrap(h.Stanzas[0])
+	if uerr != nil {
+		return pbt.Failf("C06/unparseable", "file key of the long file: %v", uerr)
+	}
+	key := refage.StreamKey(fk, kw.head[kw.hdrLen:])
+	for i, ct := range kw.kept {
+		for _, ctr := range probes {
+			for _, fin := range []bool{false, true} {
+				_, oerr := refage.OpenChunk(key, uint64(ctr), fin, ct)
+				own := ctr == i && fin == (i == c.Chunks-1)
+				if oerr == nil && !own {
+					return pbt.Failf("C06/chunk-nonce", "chunk %d of a %d-chunk payload opens under counter %d final=%v: that (key, nonce) pair is used for two chunks", i, c.Chunks, ctr, fin)
+				}
+				if oerr != nil && own {
+					return pbt.Failf("C06/chunk-nonce", "chunk %d of a %d-chunk payload does not open under its own counter", i, c.Chunks)
+				}
+			}
+		}
+	}
+	return nil
+}
+
+// c06StreamAccount: whatever the pattern of reads, every observable secret of
+// the file (file key, X25519 / ssh-ed25519 ephemeral secrets, scrypt salts,
+// payload nonce) is a window of the bytes drawn from the CSPRNG, and no two
+// windows overlap. The tape's bytes are a keyed hash the library cannot know,
+// so a secret that equals a window was drawn, and one that equals none was
+// not (constant, derived, or partly drawn).
+func c06StreamAccount(c c06Case, tape *hx.Tape, file []byte) error {
+	p := hx.ThePool()
+	var stream []byte
+	for _, r := range tape.Reads {
+		stream = append(stream, r.Data...)
+	}
+	lh, lrest, perr := refage.ParseHeader(file)
+	if perr != nil || len(lrest) < 16 {
+		return pbt.Failf("C06/unparseable", "library output does not parse: %v", perr)
+	}
+	type win struct {
+		what   string
+		off, n int
+	}
+	var wins []win
+	cursor := 0
+	find := func(what string, n int, match func(w []byte) bool) error {
+		try := func(o int) bool { return o >= 0 && o+n <= len(stream) && match(stream[o:o+n]) }
+		o := -1
+		for _, guess := range []int{cursor, cursor + 16} {
+			if try(guess) {
+				o = guess
+				break
+			}
+		}
+		for k := 0; o < 0 && k+n <= len(stream); k++ {
+			if try(k) {
+				o = k
+			}
+		}
+		if o < 0 {
+			return pbt.Failf("C06/secret-not-drawn", "%s of a file for %v is not a %d-byte run of the %d bytes drawn from the CSPRNG during Encrypt: it is constant, derived from something else, or only partly random", what, c.Recs, n, len(stream))
+		}
+		wins = append(wins, win{what, o, n})
+		cursor = o + n
+		return nil
+	}
+	// the file key, recovered with a real recipient's key
+	var owner []int
+	for ri, r := range c.Recs {
+		n := 1
+		if r.Kind == "stub" {
+			n = len(r.Stub.Stanzas)
+		}
+		for k := 0; k < n; k++ {
+			owner = append(owner, ri)
+		}
+	}
+	if len(owner) != len(lh.Stanzas) {
+		return pbt.Failf("C06/secret-not-drawn", "stanza count %d differs from the %d expected", len(lh.Stanzas), len(owner))
+	}
+	var fk []byte
+	for i, sz := range lh.Stanzas {
+		if r := c.Recs[owner[i]]; r.Real() {
+			if k, err := p.RefKey(r).Unwrap(sz); err == nil {
+				fk = k
+				break
+			}
+		}
+	}
+	if fk == nil {
+		return pbt.Failf("C06/secret-not-drawn", "no stanza of the file opens with its recipient's key")
+	}
+	if err := find("the file key", 16, func(w []byte) bool { return bytes.Equal(w, fk) }); err != nil {
+		return err
+	}
+	for i, sz := range lh.Stanzas {
+		r := c.Recs[owner[i]]
+		var share []byte
+		switch r.Kind {
+		case "x25519":
+			if len(sz.Args) == 1 {
+				share, _ = refage.B64Decode(sz.Args[0])
+			}
+		case "ed25519":
+			if len(sz.Args) == 2 {
+				share, _ = refage.B64Decode(sz.Args[1])
+			}
+		case "scrypt":
+			if len(sz.Args) == 2 {
+				salt, _ := refage.B64Decode(sz.Args[0])
+				if err := find(fmt.Sprintf("the scrypt salt of stanza %d", i), 16, func(w []byte) bool { return bytes.Equal(w, salt) }); err != nil {
+					return err
+				}
+			}
+			continue
+		default:
+			continue
+		}
+		if len(share) != 32 {
+			return pbt.Failf("C06/secret-not-drawn", "stanza %d has no 32-byte ephemeral share", i)
+		}
+		if err := find(fmt.Sprintf("the ephemeral secret of stanza %d (%s)", i, sz.Type), 32, func(w []byte) bool { return bytes.Equal(refage.X25519Public(w), share) }); err != nil {
+			return err
+		}
+	}
+	if err := find("the payload nonce", 16, func(w []byte) bool { return bytes.Equal(w, lrest[:16]) }); err != nil {
+		return err
+	}
+	for i := range wins {
+		for j := i + 1; j < len(wins); j++ {
+			a, b := wins[i], wins[j]
+			if a.off < b.off+b.n && b.off < a.off+a.n {
+				return pbt.Failf("C06/secret-not-drawn", "%s and %s share drawn bytes (offsets %d+%d and %d+%d): two secrets are not separate values", a.what, b.what, a.off, a.n, b.off, b.n)
+			}
+		}
+	}
+	key := refage.StreamKey(fk, lrest[:16])
+	pieces := splitSealed(lrest[16:])
+	for i, pc := range pieces {
+		if _, err := refage.OpenChunk(key, uint64(i), i == len(pieces)-1, pc); err != nil {
+			return pbt.Failf("C06/chunk-nonce", "chunk %d of %d does not open under its own counter and flag", i, len(pieces))
 		}
 	}
 	return nil
@@ -352,7 +571,9 @@ func c06CheckFault(c c06FaultCase, st *stats.Run) error {
 	})
 	st.Case(c.FailAt < w.calls, stats.HashJSON(c), fmt.Sprintf("fault:%s", chunkLabel(c.PlainLen)), fmt.Sprintf("fault:keepGoing=%v", c.KeepGoing))
 	st.Sample("fault", c)
-	if len(tape.Reads) < 3 {
+	if len(tape.Reads) != 3 || tape.Reads[0].Len != 16 || tape.Reads[2].Len != 16 {
+		// the encryption failed before its last draw, or the tree draws in another pattern: nothing to assert here
+		st.Label("fault:draws-not-mappable")
 		return nil
 	}
 	fk, nonce := tape.Reads[0].Data, tape.Reads[len(tape.Reads)-1].Data
@@ -414,6 +635,11 @@ func c06CheckRandFault(c c06RandFault, st *stats.Run) error {
 	hx.WithTape(tape, func() { file, err = encryptLib(c06BuildRecs(p, c.Recs, false), []byte("plaintext"), nil, false) })
 	st.Case(true, stats.HashJSON(c), "randfault:"+kindClass(kinds[k]), "randfault:mix="+hx.KindsOf(c.Recs))
 	st.Sample("rand-fault", c)
+	if !tape.Fired() {
+		// the tree never made draw number k (it draws in another pattern): nothing failed
+		st.Label("randfault:draw-not-reached")
+		return nil
+	}
 	if err == nil {
 		return pbt.Failf("C06/rand-failure-ignored", "crypto/rand failed on draw %d (%s, after %d bytes) while encrypting to %v, yet Encrypt/Write/Close all succeeded: some secret was not drawn from the CSPRNG (%d-byte file produced)", k, kinds[k], c.Short, c.Recs, len(file))
 	}
@@ -446,11 +672,14 @@ func c06CheckMisuse(c c06Misuse, st *stats.Run) error {
 	st.Case(c.Extra > chunk, stats.HashJSON(c), "misuse:write-after-close")
 	st.Sample("write-after-close", c)
 	h, rest, perr := refage.ParseHeader(out.Buf.Bytes())
-	if perr != nil || len(rest) < 16 || len(tape.Reads) < 3 {
+	if perr != nil || len(rest) < 16 || len(h.Stanzas) != 1 {
 		return pbt.Failf("C06/unparseable", "output does not parse: %v", perr)
 	}
-	_ = h
-	key := refage.StreamKey(tape.Reads[0].Data, rest[:16])
+	fk, uerr := p.RefKey(hx.RecSpec{Kind: "x25519", Idx: 0}).Unwrap(h.Stanzas[0])
+	if uerr != nil {
+		return pbt.Failf("C06/unparseable", "the file key cannot be recovered from the header: %v", uerr)
+	}
+	key := refage.StreamKey(fk, rest[:16])
 	pieces := splitSealed(rest[16:])
 	for i, pc := range pieces {
 		pt, err := refage.OpenChunk(key, uint64(i), i == len(pieces)-1, pc)
@@ -552,6 +781,26 @@ func TestC06(t *testing.T) {
 			s.St.Exhaust("chunk nonces of a 258-chunk payload", 1)
 		}
 	}, check)
+	pbt.Each(s, "tape-accounting", func(yield func(c06Case)) {
+		// many recipients in one call: more than 4096 bytes of randomness
+		for k, n := range []int{128, 130, 300} {
+			if !s.Mine(k) {
+				continue
+			}
+			var recs []hx.RecSpec
+			for i := 0; i < n; i++ {
+				recs = append(recs, hx.RecSpec{Kind: "x25519", Idx: i % 8})
+			}
+			yield(c06Case{TapeSeed: uint64(900 + n), PlainLen: 10, Recs: recs, Perturb: 127 + k})
+		}
+		s.St.Exhaust("128, 130 and 300 X25519 recipients in one Encrypt", 3)
+	}, func(c c06Case) error { return c06Check(c, s.St) })
+	pbt.Each(s, "long-payload", func(yield func(c06Long)) {
+		if s.Shard == 0 {
+			yield(c06Long{Chunks: 65538})
+		}
+		s.St.Exhaust("a payload of 65538 chunks (4 GiB): the chunks around counters 0, 256 and 65536 and the final chunk each open under exactly their own (counter, flag)", 1)
+	}, func(c c06Long) error { return c06CheckLong(c, s.St) })
 	pbt.Rapid(s, "tape-accounting", s.N(1500, 10000), func(t *rapid.T) c06Case {
 		l := genPlainLen(t, 3)
 		recs := c05GenRecs(t)
